@@ -86,6 +86,94 @@ pub fn run_chunk(line: &str) -> Obs {
     r.unwrap_or(vec![vec![99]])
 }
 
+/// Family `gchk` (C05, C08): the same input as `chunk`, observed at memory level against hcobs/GeoChunker.v.
+/// Per pump two fields: the chunk [0, end offset, chunk#, offset in chunk, len, anchor chunk#, bytes...] | [1, end] | [2],
+/// then the arena's cache [chunk#, cap, bump] or []. At the end (after one more pump, which must say Eof):
+/// [live chunks, live bytes, every Data slice still inside the chunk its own anchor holds and unchanged].
+pub fn run_gchunk(line: &str) -> Obs {
+    use owning_iovec::ByteArena;
+    let t: Vec<&str> = line.split_whitespace().collect();
+    let bs: usize = t[0].parse().unwrap();
+    let stream = unhex(t[2]);
+    let base_chunks = ByteArena::num_live_chunks();
+    let base_bytes = ByteArena::num_live_bytes();
+    let base_serial = ByteArena::verif_live_chunks().1;
+    let serial_of = |start: usize| -> (i128, usize, usize) {
+        for (s, e, serial) in ByteArena::verif_live_chunks().0 {
+            if s == start {
+                return ((serial - base_serial) as i128, s, e);
+            }
+        }
+        (-1, 0, 0)
+    };
+    let r = catch(|| {
+        let mut arena = ByteArena::new();
+        if t[1] == "used" {
+            let _ = arena.read_n(&b"xyz"[..], 3, std::num::NonZeroUsize::MAX).unwrap();
+        } else if let Some(k) = t[1].strip_prefix("rem") {
+            let k: usize = k.parse().unwrap();
+            let _ = arena.read_n(&b"xyz"[..], 3, std::num::NonZeroUsize::MAX).unwrap();
+            let r = arena.remaining();
+            if r > k {
+                let _ = arena.read_n(std::io::repeat(7), r - k, std::num::NonZeroUsize::MAX).unwrap();
+            }
+        }
+        let mut rd = Sched { stream: &stream, off: 0, sched: t[3..].to_vec(), pos: 0 };
+        let mut ch = StreamChunker::default();
+        let mut obs: Obs = Vec::new();
+        let mut kept = Vec::new();
+        let cache_field = |arena: &ByteArena| -> Vec<i128> {
+            match arena.verif_cache() {
+                None => vec![],
+                Some((s, b, e)) => vec![serial_of(s).0, (e - s) as i128, (b - s) as i128],
+            }
+        };
+        for _ in 0..(stream.len() + 3) {
+            match ch.pump(&mut arena, &mut rd, bs).expect("no hard error in the schedule") {
+                Chunk::Eof => {
+                    obs.push(vec![2]);
+                    obs.push(cache_field(&arena));
+                    break;
+                }
+                Chunk::Sentinel(o) => obs.push(vec![1, o as i128]),
+                Chunk::Data((o, s)) => {
+                    let sl = s.slice();
+                    let (addr, len) = (sl.as_ptr() as usize, sl.len());
+                    let (aserial, start, end) = serial_of(s.verif_chunk());
+                    let mut f: Vec<i128> = if s.verif_chunk() != 0 && aserial > 0 && start <= addr && addr + len <= end {
+                        vec![0, o as i128, aserial, (addr - start) as i128, len as i128, aserial]
+                    } else {
+                        vec![0, o as i128, 0, 0, len as i128, if s.verif_chunk() == 0 { 0 } else { aserial }]
+                    };
+                    f.extend(bytes_field(sl));
+                    obs.push(f);
+                    kept.push((s.slice().to_vec(), addr, s));
+                }
+            }
+            if obs.last().map(|f| f[0] != 2).unwrap_or(false) {
+                obs.push(cache_field(&arena));
+            }
+        }
+        if !matches!(ch.pump(&mut arena, &mut rd, bs).unwrap(), Chunk::Eof) {
+            obs.push(vec![98]);
+        }
+        let mut ok = true;
+        for (copy, addr, s) in &kept {
+            let (aserial, start, end) = serial_of(s.verif_chunk());
+            ok &= s.slice() == &copy[..] && s.slice().as_ptr() as usize == *addr;
+            ok &= aserial > 0 && start <= *addr && *addr + copy.len() <= end;
+        }
+        obs.push(cache_field(&arena));
+        obs.push(vec![
+            (ByteArena::num_live_chunks() - base_chunks) as i128,
+            (ByteArena::num_live_bytes() - base_bytes) as i128,
+            ok as i128,
+        ]);
+        obs
+    });
+    r.unwrap_or(vec![vec![99]])
+}
+
 pub fn run_reader(line: &str) -> Obs {
     let t: Vec<&str> = line.split_whitespace().collect();
     let bs: Option<usize> = if t[0] == "-" { None } else { Some(t[0].parse().unwrap()) };
